@@ -57,7 +57,7 @@ type cliResult struct {
 // with errors follow each other, names and namespaces differ per file
 var cliPool = [][2]string{
 	{"a.php", "<?php\nnamespace A;\nuse X\\Y as Z;\nfunction f(Z $p, \\Q $q): ?Z { return new Z(1 + 2, \"s$p\"); }\n"},
-	{"b.php", "<?php $b = 1 +; $c = ); "},
+	{"b.php", "<?php new B; class C extends D implements Z {} $b = 1 +; $c = ); "}, // no namespace of its own: names must not inherit a.php's
 	{"c.php", "<?php echo 1 +;"},
 	{"d/d.php", "#!/usr/bin/php\n<html>\r\n<?php /* c */ $d = [1, 2 , ] ; ?>\r\ntail <?= $d ?>"},
 	{"e.php", "<?php ;"},
